@@ -13,7 +13,8 @@ from vlib.runner import Violation
 
 PROPERTY = 'C13'
 RULE = ('cases are edit histories in an operation DSL (cell assignment, add/set/remove/rename/move of objects and '
-        'properties, remove_empty_*, union_update / intersection_update with and without ignore_conflicts, |=, &=, '
+        'properties, remove_empty_*, union_update / intersection_update with and without ignore_conflicts, |=, &=, also '
+        'with the definition itself as operand, '
         'reads d[o, p] and d[0..2]). (1) Bounded exhaustive part: every visible definition over the name universe '
         '{a,b} x {x,y} and {a,b} x {a,y} (quick; 113 states each; the second uses one string on both axes) or '
         '{a,b,c} x {x,y}, {a,b} x {x,y,z} and {a,b,c} x {a,y} (thorough; 1160 states each) is '
@@ -59,6 +60,8 @@ def core_ops(objs, props):
         ops += [['move_property', p, i] for i in range(len(props))]
         ops += [[name, p, lst] for name in ('add_property', 'set_property') for lst in arg_lists(objs)]
     ops += [['remove_empty_objects'], ['remove_empty_properties'], ['getitem_int', 0], ['getitem_int', 1], ['getitem_int', 2]]
+    ops += [['self_combine', 'ior'], ['self_combine', 'iand'], ['self_combine', 'union_update'],
+            ['self_combine', 'intersection_update'], ['self_combine', 'intersection_update', True]]
     return ops
 
 
@@ -300,6 +303,10 @@ def make_machine(ctx):
                 return
             p = data.draw(st.sampled_from(self.model.properties))
             self.do(['move_property', p, data.draw(st.integers(0, len(self.model.properties) - 1))])
+
+        @rule(how=st.sampled_from(['ior', 'iand', 'union_update', 'intersection_update']))
+        def combine_with_itself(self, how):
+            self.do(['self_combine', how])
 
         @rule(which=st.sampled_from(['remove_empty_objects', 'remove_empty_properties']))
         def remove_empty(self, which):
